@@ -744,3 +744,33 @@ def c05_cli(ctx, res, limit):
             res.violate("C05/cli/no-diagnostic", "`lace check` failed (exit %s) without printing a diagnostic" % r.rc,
                         dict(r.brief(), source=texts[ix][:1500]))
     res.require(["l2:check_fuzz"], "L2")
+
+
+# ------------------------------------------------------------------ C01 (L2 sample)
+
+def c01_cli(ctx, res, limit):
+    """`lace compile` output bytes against the reference image (also onto an existing, longer file)."""
+    cp = corpus(ctx)
+    entries = cp["structured"][:limit]
+    d = _dir(ctx, "c01")
+
+    def one(ix):
+        e = entries[ix]
+        src, obj = "i%d.asm" % ix, "i%d.lc3" % ix
+        _write(os.path.join(d, src), e["source"])
+        if ix % 2 == 0:
+            _write(os.path.join(d, obj), b"\xAB\xCD" * 4096)
+        c = lace(ctx, ["compile", src, obj] + feat(e), cwd=d)
+        data = open(os.path.join(d, obj), "rb").read() if os.path.exists(os.path.join(d, obj)) else None
+        return ix, c, data
+    for ix, c, data in pmap(one, range(len(entries))):
+        e = entries[ix]
+        res.evaluations += 1
+        res.cls("l2:compile")
+        want = b"".join(int(w).to_bytes(2, "big") for w in e["image"])
+        if c.rc != 0 or data != want:
+            res.violate("C01/cli/object-bytes", "`lace compile` does not write the reference image (exit %s, %s bytes, expected %d)"
+                        % (c.rc, None if data is None else len(data), len(want)),
+                        {"source": e["source"][-800:], "compile": c.brief(), "destination_pre_existed": ix % 2 == 0,
+                         "file_hex": None if data is None else data[:64].hex(), "expected_hex": want[:64].hex()})
+    res.require(["l2:compile"], "L2")
